@@ -26,3 +26,25 @@ package types
 
 //@ func (k RollingseedKeeper) GetRollingSeed
 //@ trusted
+
+// ---- C11: what a group signs ---------------------------------------------------------------------------
+// content kinds: whether a kind is module-internal is a constant per concrete type (ground check
+// "internal-kinds"); through the interface it is named by an abstract predicate
+//@ spec contentInternal(c Content) Bool uninterpreted
+//@ func (c Content) IsInternal
+//@ trusted
+//@ ensures result == contentInternal(c)
+//@ func (c Content) OrderRoute
+//@ trusted
+//@ func (c Content) OrderType
+//@ trusted
+
+// message = keccak(originator) || block time (8 bytes BE) || signing id (8 bytes BE) || content bytes
+//@ func EncodeSigning
+//@ ensures result == ext("bytes.Join", list(absfn("tss.Hash", originator), u64be(wrapu64(ctx.BlockTime().Unix())), u64be(signingID), contentMsg), bytes(""))
+
+// originator = 4-byte kind tag || fixed-width fields (hashes and big-endian integers)
+//@ func (o DirectOriginator) Encode
+//@ ensures err == nil && result == ext("bytes.Join", list(bytes(DirectOriginatorPrefix), absfn("tss.Hash", bytes(o.SourceChainID)), absfn("tss.Hash", bytes(o.Requester)), absfn("tss.Hash", bytes(o.Memo))), bytes(""))
+//@ func (o TunnelOriginator) Encode
+//@ ensures err == nil && result == ext("bytes.Join", list(bytes(TunnelOriginatorPrefix), absfn("tss.Hash", bytes(o.SourceChainID)), u64be(o.TunnelID), absfn("tss.Hash", bytes(o.DestinationChainID)), absfn("tss.Hash", bytes(o.DestinationContractAddress))), bytes(""))
